@@ -266,6 +266,9 @@ def run_candidate(c):
             names.append(name)
         for sub in c.get("dirs", []):
             os.makedirs(os.path.join(d, sub), exist_ok=True)
+        for link, target in (c.get("symlinks") or {}).items():
+            os.makedirs(os.path.dirname(os.path.join(d, link)), exist_ok=True)
+            os.symlink(os.path.join(d, target), os.path.join(d, link))
         kind = c["kind"]
         obs = {}
         bad = []
